@@ -862,7 +862,8 @@ fn run_case(out: &mut Out, seed: u64, base: &Path, cyc: u64) {
 /// commits a never-seen transaction Q with scripts skipped (cycles 0, nothing cached), the target is
 /// reached, and a heavier branch commits Q again under full verification: both nodes must record Q's
 /// real cycles (F32 class). Last, an assume-valid block commits transactions the warm node holds
-/// entries for: the recorded cycles are cache-dependent (counted, not failed).
+/// entries for: the recorded cycles must be zero on both nodes (F34, repaired by /repo 6d79679;
+/// oracle class `assume-valid-cycles-depend-on-cache`, and the block's ext row is compared in full).
 fn run_cyc_case(out: &mut Out, seed: u64, base: &Path, cyc: u64) {
     let mut rng = Rng::new(seed ^ 0xC1C1E);
     let limits = [2 * cyc - 1, 2 * cyc, 2 * cyc + 1, 3 * cyc - 1, 3 * cyc];
@@ -982,14 +983,19 @@ fn run_cyc_case(out: &mut Out, seed: u64, base: &Path, cyc: u64) {
     let h2 = next(&h1.hash(), &mut bld, vec![], vec![]);
     set_targets(&c, &h2);
     c.skip_blocks.insert(h1.hash());
-    c.ext_cycles_excluded.insert(h1.hash());
     c.deliver(&h1, &[], "cyc:assume-valid-commit-cached-txs");
     c.deliver(&h2, &[], "cyc:assume-valid-target");
     stop_if_diverged!();
     {
+        // F34 (repaired by /repo 6d79679): the recorded cycles of an assume-valid block must not depend
+        // on the verification cache — zero on both nodes, although the warm node holds the entries
         let (ec, ew) = (c.cold.shared.store().get_block_ext(&h1.hash()).and_then(|e| e.cycles), c.warm.shared.store().get_block_ext(&h1.hash()).and_then(|e| e.cycles));
         let z = |v: &Option<Vec<u64>>| match v { Some(v) if v.iter().all(|x| *x == 0) => "zero", Some(v) if v.iter().all(|x| *x == cyc) => "real", _ => "other" };
-        c.out.count(&format!("cyc:F34-candidate:assume-valid-block-of-cached-txs:BlockExt.cycles:cold={},warm={}", z(&ec), z(&ew)));
+        c.out.count(&format!("cyc:assume-valid-block-of-cached-txs:BlockExt.cycles:cold={},warm={}", z(&ec), z(&ew)));
+        c.out.evaluations += 2;
+        if ec != ew || z(&ec) != "zero" {
+            c.out.oracle_fail("assume-valid-cycles-depend-on-cache", &format!("a block verified with scripts skipped commits transactions the warm node holds entries for: BlockExt.cycles cold {:?}, warm {:?} (a miss records 0)", ec, ew));
+        }
     }
     c.compare_queries(&cells.iter().map(|x| x.0.clone()).collect::<Vec<_>>());
     c.out.nontrivial(format!("cyc|{}|{}|{}", limit as i64 - (n_fit as u64 * cyc) as i64, n_fit, cfg.epoch_len));
